@@ -172,6 +172,38 @@ def evaluate(initial, events, source_only, sim_seed, noop_seeds):
 WALL_LIMIT = {"quick": 240, "thorough": 1500}
 
 
+def run_dropamend_case(ctx, index: int):
+    """A step with an amended input on a static file declared by another plan; that plan and the boot
+    plan are touched in the same rebuild.  Nothing the step consumes changed and its own plan is skipped,
+    so it must not be executed."""
+    from simdirector import A, FifoSchedule, Project, plan_file
+
+    r = ctx.rng("dropamend", index)
+    a = [A.step("work", inp=["common.txt"], out=["a/result.txt"])]
+    b = [A.static("b/d.txt")]
+    plan = [A.static("common.txt", "a.py", "b.py"), A.step("./a.py", inp=["a.py"], plan=True),
+            A.step("./b.py", inp=["b.py"], plan=True)]
+    scripts = {"./plan.py": plan, "./a.py": a, "./b.py": b,
+               "work": [A.read_declared(), A.amend(inp=["b/d.txt"]), A.read("b/d.txt"), A.write_declared()]}
+    files = {"plan.py": plan_file(plan), "a.py": plan_file(a), "b.py": plan_file(b), "common.txt": "c\n", "b/d.txt": "d\n"}
+    njob = [1, 1, 2][index % 3]
+    found = []
+    info = {"njob": njob}
+    with SimDirector(Project(scripts=copy.deepcopy(scripts), files=dict(files)), seed=r.randrange(1 << 30)) as sim:
+        b1 = sim.build(njob=njob, schedule=FifoSchedule())
+        if b1.status != "done" or not b1.ok:
+            return [("director-" + b1.status, f"the first build ended with {b1.returncode!r}", info)], info
+        sim.apply([("write", "plan.py", plan_file(plan, note="touched")), ("write", "b.py", plan_file(b, note="touched"))])
+        b3 = sim.build(njob=njob, schedule=FifoSchedule())
+        info["commands"] = b3.commands
+        if "work" in b3.commands:
+            found.append(("command-outside-cone:dropamend-while-dynamic-input-detached",
+                          f"after touching only plan.py and b.py the rebuild executed {b3.commands}: `work` consumes "
+                          f"common.txt and (amended) b/d.txt, neither edited nor built by a step, and its plan ./a.py was skipped",
+                          {**info, "events": [e[:2] for e in b3.events if e[0] in ("START", "SKIP", "NOSKIP", "DROPAMEND", "UPDATED")][:12]}))
+    return found, info
+
+
 def run_env_dropped_case(ctx, index: int):
     """A step stops reading an environment variable (its script and a declared input change, so it is
     run again and no longer announces the variable); afterwards the variable changes: nothing tracks it
@@ -276,6 +308,16 @@ async def search(ctx):
                        "evaluated by props.c04.evaluate"}))
         if any(sig.startswith("director-") for sig, _, _ in found):
             break
+    for i in range(ctx.budget(3, 12)):
+        found, info = await asyncio.to_thread(run_dropamend_case, ctx, i)
+        st.case(("dropamend", i), nontrivial=True)
+        st.programs += 1
+        st.count("dropamend-histories")
+        for sig, what, extra in found:
+            st.count("finding:" + sig)
+            ctx.finding(Finding(PID, sig, what, {
+                "case": {"verif_seed": ctx.seed, "salt": "dropamend", "index": i}, **extra,
+                "how": "props/c04.py run_dropamend_case(ctx, index); harness/repro/c04_dropamend_two_plans.py"}))
     for i in range(ctx.budget(6, 60)):
         found, info = await asyncio.to_thread(run_env_dropped_case, ctx, i)
         st.case(("env-dropped", i), nontrivial=True)
